@@ -155,6 +155,26 @@ def predicate(c):
             if kk in ("hang", "panic"):
                 bad.append(("C17-panic-or-hang", "operation outcome " + kk))
         return bad
+    if "offs" in f:
+        # a fetch answered with a broker error code must not move the Conn: Conn.Offset() after it,
+        # the offset of the NEXT fetch request and Conn.Offset() after that are the offset the Conn
+        # was positioned at
+        off = f.get("off")
+        exp = [None, f"ok={off},1", None, f"ok={off},1"]
+        for i, (cls, x) in enumerate(r):
+            if i in (1, 3) and cls != exp[i]:
+                bad.append(("C11-fetch-error-moves-conn-offset",
+                            f"{op} {f.get('field')} error code {f.get('code')} on a Conn positioned at offset {off}: Conn.Offset() "
+                            f"{'after the error' if i == 1 else 'after the next fetch'} is {cls[3:]} (offset,whence), expected {off},1"))
+                break
+            if i == 2 and not (cls.startswith("ok=[") and cls.endswith(";" + str(off) + "]")):
+                bad.append(("C11-fetch-error-moves-conn-offset",
+                            f"{op} {f.get('field')} error code {f.get('code')} on a Conn positioned at offset {off}: the next fetch request "
+                            f"asked for {cls[:60]} instead of offset {off}"))
+                break
+        if f.get("code") not in ("0", None) and kind(r[0][0]) != "kafka":
+            bad.append(("C11-misaligned-fetchoffs", c["go"][:100]))
+        return bad
     if "stall" in f:
         # C17 "never blocks beyond its deadline": the peer goes silent after k bytes; a deadline
         # governs the exchange (the harness only generates such configurations): the call must
@@ -562,7 +582,7 @@ def evaluate(cases, res, want):
     ev, dn, hist = L.coverage_counts(sel, trivial_feats=("",))
     # non-trivial: an error code other than 0, or a cut
     dn = len({c["line"] for c in sel if ("cut" in feats_of(c)) or ("drain" in feats_of(c) and not c["args"].endswith(" -"))
-              or feats_of(c).get("code", "0") not in ("0", True) or "cross" in feats_of(c) or "framing" in feats_of(c) or "nego" in feats_of(c) or "reads" in feats_of(c) or "readcut" in feats_of(c) or "comp" in feats_of(c) or "split" in feats_of(c) or "trunc2" in feats_of(c) or "stall" in feats_of(c) or ("msgcut" in feats_of(c) and not c["args"].endswith(" -"))})
+              or feats_of(c).get("code", "0") not in ("0", True) or "cross" in feats_of(c) or "framing" in feats_of(c) or "nego" in feats_of(c) or "reads" in feats_of(c) or "readcut" in feats_of(c) or "comp" in feats_of(c) or "split" in feats_of(c) or "trunc2" in feats_of(c) or "stall" in feats_of(c) or "offs" in feats_of(c) or ("msgcut" in feats_of(c) and not c["args"].endswith(" -"))})
     hist = {}
     for c in sel:
         f = feats_of(c)
@@ -602,7 +622,8 @@ RULE = ("PART A (exhaustive, no randomness in the structure): every (operation, 
         "without record headers), read by ReadMessage / Read / Conn.ReadMessage / Conn.Read, next responses queued or not.  PART L (stall): the peer goes SILENT "
         "after k bytes (no EOF) under SetDeadline / SetReadDeadline only / SetWriteDeadline only (150 ms), for every operation under the "
         "deadline of its side and for the implicit ApiVersions negotiation of a first call under all three: the call must return a timeout "
-        "error within the 3 s watchdog and the Conn must be closed; expectation from the model's deadline_of; a hang is re-run in isolation.")
+        "error within the 3 s watchdog and the Conn must be closed; expectation from the model's deadline_of; a hang is re-run in isolation.  PART M: a Conn positioned at a non-zero offset, a fetch answered with a broker error code, "
+        "then Conn.Offset(), a fetch WITHOUT Seek (the scripted peer reports the offset requested) and Conn.Offset() again.")
 
 
 def correspondence(ctx):
@@ -677,6 +698,64 @@ def truncated_record_cases(ctx, _gen_output=None):
                      "byte of its last record (0..3 whole records before it, with / without record headers), read through Batch.ReadMessage, "
                      "Batch.Read, Conn.ReadMessage, Conn.Read, next responses queued or not; predicate on the real Conn's output: exactly the "
                      "whole records are delivered and the action at the truncation returns no data",
+                samples=samples, failures=failures, notes=[], extra=dict(exhaustive=True))
+
+
+def split_cases(ctx, _gen_output=None):
+    """Hosting function for C04 (Conn decoding): the split family (PART J): a fetch response with
+    magic-2 records (2-byte length varints) or magic-1 messages delivered in two segments at EVERY
+    byte boundary (with and without the following responses already queued): the decoded values
+    must equal the one-piece decoding (the unsplit reference case of the same sweep) and the
+    following operations must succeed.  Predicate on the implementation only: ~2 s."""
+    if _gen_output is None:
+        gobin = L.go_build("c11")
+        tier = "thorough" if ctx.thorough else "quick"
+        rc, out, err, dt = L.sh([gobin, "-gen", "-seed", str(ctx.seed), "-tier", tier], timeout=600)
+        if rc != 0:
+            raise L.Fail("correspondence", "harness cmd/c11 crashed", (out[-1500:] + err[-2500:]))
+    else:
+        out = _gen_output
+    sel = [c for c in L.parse_cases(out) if "split" in feats_of(c)]
+    ref = {}
+    for c in sel:
+        f = feats_of(c)
+        if f.get("mode") == "none":
+            ref[(f.get("op"), f.get("msgset"))] = c
+    by_key = {}
+    for c in sel:
+        f = feats_of(c)
+        if f.get("mode") == "none":
+            if any(kind(x) != "ok" for x, _ in toks(c["go"])):
+                by_key.setdefault("C04-conn-split-reference", []).append((c, "the one-piece reference itself failed: " + c["go"][:120]))
+            continue
+        rc_ = ref.get((f.get("op"), f.get("msgset")))
+        pos = c["args"].split(" ")[3].lstrip("es")
+        if rc_ is None or c["go"] != rc_["go"]:
+            by_key.setdefault("C04-conn-segmented-response-decoding", []).append(
+                (c, f"{f.get('op')} msgset={f.get('msgset')} segment boundary at byte {pos} (mode {f.get('mode')}): decoded "
+                    f"{c['go'][:150]} but the one-piece decoding is {(rc_ or {}).get('go', '?')[:150]}"))
+    failures = []
+    for key in sorted(by_key):
+        lst = by_key[key]
+        c, what = lst[0]
+        failures.append(dict(layer="property", key=key,
+                             what=f"C04 Conn decoding of a response delivered in segments: {what} [{len(lst)} cases]",
+                             detail=json.dumps(dict(case=c["line"][:1500], go=c["go"][:400], feats=c["feats"][:300],
+                                                    replay="echo '<case>' | /verif/build/bin/c11 -run")),
+                             input=dict(case=c["line"], go=c["go"], feats=c["feats"])))
+    hist = {}
+    for c in sel:
+        f = feats_of(c)
+        for k in ("op", "msgset", "mode"):
+            if k in f:
+                hist[f"{k}={f[k]}"] = hist.get(f"{k}={f[k]}", 0) + 1
+    samples = [c["line"][:200] + " | " + c["go"][:140] + " | " + c["feats"][:100] for c in (sel[:2] + sel[len(sel)//2:len(sel)//2+2] + sel[-2:])]
+    return dict(evaluations=len(sel), distinct_nontrivial=sum(1 for c in sel if feats_of(c).get("mode") != "none"), hist=hist,
+                rule="PART J of harness/cmd/c11: fetch v2/v10 responses holding one uncompressed magic-2 batch (2 records, 70- and 75-byte values: "
+                     "2-byte length varints) or a magic-1 set, delivered to the real Conn in two segments with the boundary at every byte "
+                     "(inside every varint, length prefix, key, value), with and without the following responses already queued; read by "
+                     "Batch.ReadMessage x2 + Close and by Conn.ReadMessage, then heartbeat and list-offsets; the decoded values and results "
+                     "must equal those of the one-piece delivery",
                 samples=samples, failures=failures, notes=[], extra=dict(exhaustive=True))
 
 
